@@ -153,6 +153,7 @@ class GenericGraphsAdapter(GenericQuadsBaseAdapter):
 
     @override
     def triple(self, terms: Iterable[Any]) -> Quad:
+        self.graph  # a triple outside of any graph is invalid  # noqa: B018
         return Quad(*chain(terms, [self._graph_id]))
 
     @override
